@@ -842,22 +842,40 @@ Definition spec_sent (p : p2p) (gs : list ghost) (cf : Z) : list (Z * list pinpu
 Definition next_spec_after (p : p2p) (cf : Z) : Z :=
   match ps_spectators p with [] => ps_next_spec p | _ => Z.max (ps_next_spec p) (cf + 1) end.
 
+(* what the rollback step must deliver for the rest of advance_rollback_frame (the same in both saving modes) *)
+Definition HRpost (p : p2p) (gs : list ghost) (cf : Z) (o : pout) (p1 : p2p) (o1 : pout) : Prop :=
+  handle_rollback_and_save predict p cf o = Ok (p1, o1) /\ p1 = with_sync p (ps_sync p1) /\
+  QsI (s_current (ps_sync p)) (s_last_confirmed (ps_sync p)) (s_queues (ps_sync p1)) gs /\
+  all_clean (s_queues (ps_sync p1)) /\ same_user (s_queues (ps_sync p)) (s_queues (ps_sync p1)) /\
+  s_last_confirmed (ps_sync p1) = s_last_confirmed (ps_sync p) /\
+  s_current (ps_sync p1) = s_current (ps_sync p) /\
+  (forall h q gh q', nth_error (s_queues (ps_sync p)) h = Some q -> nth_error gs h = Some gh ->
+     nth_error (s_queues (ps_sync p1)) h = Some q' -> s_current (ps_sync p) <= hlen (fst gh) ->
+     pi_frame (q_pred q) = NULL -> pi_frame (q_pred q') = NULL) /\
+  s_maxpred (ps_sync p1) = s_maxpred (ps_sync p) /\
+  (ps_sparse p = true -> s_last_confirmed (ps_sync p) <= s_last_saved (ps_sync p1)).
+
 (* the first half of advance_rollback_frame: rollback, save, broadcast to the spectators, new confirmed frame *)
-Lemma rollback_confirm_progress : forall p gs g w d o,
-  QS w d p gs -> JI w p g -> Forall (fun c => cs_last c < I32MAX) (ps_status p) ->
+Lemma rollback_confirm_gen : forall sp p gs w d o,
+  QSg sp w d p gs -> Forall (fun c => cs_last c < I32MAX) (ps_status p) ->
+  (forall cf, confirmed_frame p = Ok cf -> s_last_confirmed (ps_sync p) <= cf ->
+     Forall (fun g : ghost => cf <= hlen (fst g) - 1) gs -> exists p1 o1, HRpost p gs cf o p1 o1) ->
   exists cf p1 o1 p2 o2 s3 gs3,
     confirmed_frame p = Ok cf /\
     handle_rollback_and_save predict p cf o = Ok (p1, o1) /\ p1 = with_sync p (ps_sync p1) /\
     send_confirmed_inputs_to_spectators p1 cf o1 = Ok (p2, o2) /\
     p2 = with_next_spec p1 (next_spec_after p cf) /\ o_requests o2 = o_requests o1 /\
     o_spec_sends o2 = o_spec_sends o1 ++ spec_sent p gs cf /\
-    set_last_confirmed_frame (ps_sync p1) cf false = Ok s3 /\
-    QS w d (with_sync p2 s3) gs3 /\ all_clean (s_queues s3) /\ map fst gs3 = map fst gs /\
+    set_last_confirmed_frame (ps_sync p1) cf sp = Ok s3 /\
+    QSg sp w d (with_sync p2 s3) gs3 /\ all_clean (s_queues s3) /\ map fst gs3 = map fst gs /\
     s_current s3 = s_current (ps_sync p) /\
     Forall2 (fun q q' => q_pred q' = q_pred q /\ q_first_incorrect q' = q_first_incorrect q) (s_queues (ps_sync p1)) (s_queues s3) /\
-    s_current (ps_sync p1) = s_current (ps_sync p).
+    s_current (ps_sync p1) = s_current (ps_sync p) /\
+    s_last_saved s3 = s_last_saved (ps_sync p1) /\
+    s_last_confirmed s3 = Z.min (if sp then Z.min cf (s_last_saved (ps_sync p1)) else cf) (s_current (ps_sync p)) /\
+    s_last_confirmed (ps_sync p) <= cf /\ Forall (fun g : ghost => cf <= hlen (fst g) - 1) gs.
 Proof.
-  intros p gs g w d o HQS HJI Hbnd.
+  intros sp p gs w d o HQS Hbnd Hroll.
   pose proof HQS as [Hw Hd Hmode Hn Hconn Hgos HQ Hlast Hfr Hkinds Hpe Hsok].
   destruct Hw as (Hw1 & Hw2 & Hw3). destruct Hmode as (Hrun & Hsp & Hdf).
   destruct Hn as (Hn1 & Hn2 & Hn3 & Hn4). destruct Hfr as (HfL & Hfc & Hfw).
@@ -869,13 +887,8 @@ Proof.
   pose proof (cf_le_all _ _ _ Hlast Hcf1) as Hcfg.
   pose proof (cf_ge_conf _ _ _ _ _ _ HQ Hlast Hcf2) as HLcf.
   (* rollback and save *)
-  destruct HJI as [Jw Jmp Jfr Jcur Jroll]. destruct (Jroll ltac:(lia)) as (_ & Jm & Jcells).
-  destruct (handle_rollback_progress predict p gs cf o g w (c - 1) Hsp Hconn ltac:(lia) Hdf HQ ltac:(lia) Hfc Hfw
-              ltac:(lia) Jm Jfr ltac:(lia) Jcells)
-    as (p1 & o1 & Er & Hshape & HQ1 & Hcl1 & Hsu1 & HL1 & Hc1 & Hidle1).
-  fold c in HQ1, Hc1, Hidle1. fold L in HQ1, HL1.
-  destruct (handle_rollback_exec predict p cf o p1 o1 g w (c - 1) Er Hsp ltac:(lia) Jm Jfr Hfc ltac:(lia) Jcells)
-    as (_ & _ & _ & _ & _ & _ & _ & _ & _ & _ & _ & Hmp1 & _).
+  destruct (Hroll cf Ecf HLcf Hcfg) as (p1 & o1 & Er & Hshape & HQ1 & Hcl1 & Hsu1 & HL1 & Hc1 & Hidle1 & Hmp1 & HS1).
+  fold c in HQ1, Hc1, Hidle1. fold L in HQ1, HL1, HS1.
   (* the broadcast *)
   assert (Hf1 : ps_spectators p1 = ps_spectators p /\ ps_next_spec p1 = ps_next_spec p /\ ps_status p1 = ps_status p /\ ps_nplayers p1 = ps_nplayers p)
     by (rewrite Hshape; repeat split).
@@ -909,7 +922,11 @@ Proof.
         apply Forall_forall. intros g0 Hg0. rewrite Forall_forall in S3, Hcfg. pose proof (S3 g0 Hg0). pose proof (Hcfg g0 Hg0). lia. }
   destruct Hsend as (p2 & o2 & Es & Hp2 & Ho2 & Hsent & Hsok2 & Hns2).
   (* the new confirmed frame *)
-  destruct (confirm_progress predict (ps_sync p1) gs cf) as (s3 & E3 & HL3 & Hsf3 & (gs3 & HQ3 & Hmap3) & Hcl3 & Hsu3 & Hpr3).
+  pose proof (confirm_progress_gen predict (ps_sync p1) gs cf sp) as Hcp. cbv zeta in Hcp.
+  set (fr := if sp then Z.min cf (s_last_saved (ps_sync p1)) else cf) in *.
+  assert (HLfr : L <= fr <= cf).
+  { subst fr. destruct sp; [specialize (HS1 Hsp)|]; lia. }
+  destruct Hcp as (s3 & E3 & Hsv3 & HL3 & Hsf3 & (gs3 & HQ3 & Hmap3) & Hcl3 & Hsu3 & Hpr3).
   { rewrite Hc1, HL1. exact HQ1. }
   { exact Hcl1. }
   { rewrite Hc1, HL1. lia. }
@@ -919,7 +936,7 @@ Proof.
   exists cf, p1, o1, p2, o2, s3, gs3.
   split; [exact Ecf|]. split; [exact Er|]. split; [exact Hshape|]. split; [exact Es|]. split; [exact Hp2|]. split; [exact Ho2|].
   split; [exact Hsent|]. split; [exact E3|].
-  split; [|split; [exact Hcl3|split; [exact Hmap3|split; [exact Hc3|split; [|exact Hc1]]]]].
+  split; [|split; [exact Hcl3|split; [exact Hmap3|split; [exact Hc3|split; [|split; [exact Hc1|split; [exact Hsv3|split; [exact HL3|split; [exact HLcf|exact Hcfg]]]]]]]]].
   2:{ clear - Hpr3 Hcl1 Hcl3. unfold all_clean in *. revert Hcl1 Hcl3.
       induction Hpr3 as [|q q' l l' H1 H2 IH]; intros A B; [constructor|].
       inversion A; inversion B; subst. constructor; [split; [exact H1|congruence]|apply IH; assumption]. }
@@ -927,7 +944,7 @@ Proof.
   { rewrite Hp2, Hshape. reflexivity. }
   rewrite Hbase.
   apply (QS_resync _ w d (with_next_spec p (next_spec_after p cf)) gs s3 gs3 (QS_next_spec _ _ _ _ _ _ HQS Hsok2)).
-  - cbn [with_next_spec ps_sync]. rewrite Hmp3, Hmp1. symmetry. exact Hw3.
+  - cbn [with_next_spec ps_sync]. rewrite Hmp3. exact Hmp1.
   - rewrite Hc3, HL3. exact HQ3.
   - apply map_fst_hlens. exact Hmap3.
   - rewrite Hc3, HL3. lia.
@@ -953,20 +970,78 @@ Proof.
     rewrite Forall_forall in S3. exact (S3 gh (nth_error_In _ _ Cg)).
 Qed.
 
+
+(* dense saving: the rollback step is handle_rollback_progress *)
+Lemma dense_rollback : forall p gs g w d o cf,
+  QS w d p gs -> JI w p g -> s_last_confirmed (ps_sync p) <= cf -> exists p1 o1, HRpost p gs cf o p1 o1.
+Proof.
+  intros p gs g w d o cf HQS HJI HLcf.
+  pose proof HQS as [Hw Hd Hmode Hn Hconn Hgos HQ Hlast Hfr Hkinds Hpe Hsok].
+  destruct Hw as (Hw1 & Hw2 & Hw3). destruct Hmode as (Hrun & Hsp & Hdf).
+  destruct Hn as (Hn1 & Hn2 & Hn3 & Hn4). destruct Hfr as (HfL & Hfc & Hfw).
+  pose proof (QsI_length _ _ _ _ HQ) as Hlq.
+  destruct HJI as [Jw Jmp Jfr Jcur Jroll]. destruct (Jroll ltac:(lia)) as (_ & Jm & Jcells).
+  destruct (handle_rollback_progress predict p gs cf o g w (s_current (ps_sync p) - 1) Hsp Hconn ltac:(lia) Hdf HQ ltac:(lia) Hfc Hfw
+              ltac:(lia) Jm Jfr ltac:(lia) Jcells)
+    as (p1 & o1 & Er & Hshape & HQ1 & Hcl1 & Hsu1 & HL1 & Hc1 & Hidle1).
+  destruct (handle_rollback_exec predict p cf o p1 o1 g w (s_current (ps_sync p) - 1) Er Hsp ltac:(lia) Jm Jfr Hfc ltac:(lia) Jcells)
+    as (_ & _ & _ & _ & _ & _ & _ & _ & _ & _ & _ & Hmp1 & _).
+  exists p1, o1. split; [exact Er|]. split; [exact Hshape|]. split; [exact HQ1|]. split; [exact Hcl1|]. split; [exact Hsu1|].
+  split; [exact HL1|]. split; [exact Hc1|]. split; [exact Hidle1|]. split; [congruence|]. intros X. congruence.
+Qed.
+
+Lemma rollback_confirm_progress : forall p gs g w d o,
+  QS w d p gs -> JI w p g -> Forall (fun c => cs_last c < I32MAX) (ps_status p) ->
+  exists cf p1 o1 p2 o2 s3 gs3,
+    confirmed_frame p = Ok cf /\
+    handle_rollback_and_save predict p cf o = Ok (p1, o1) /\ p1 = with_sync p (ps_sync p1) /\
+    send_confirmed_inputs_to_spectators p1 cf o1 = Ok (p2, o2) /\
+    p2 = with_next_spec p1 (next_spec_after p cf) /\ o_requests o2 = o_requests o1 /\
+    o_spec_sends o2 = o_spec_sends o1 ++ spec_sent p gs cf /\
+    set_last_confirmed_frame (ps_sync p1) cf false = Ok s3 /\
+    QS w d (with_sync p2 s3) gs3 /\ all_clean (s_queues s3) /\ map fst gs3 = map fst gs /\
+    s_current s3 = s_current (ps_sync p) /\
+    Forall2 (fun q q' => q_pred q' = q_pred q /\ q_first_incorrect q' = q_first_incorrect q) (s_queues (ps_sync p1)) (s_queues s3) /\
+    s_current (ps_sync p1) = s_current (ps_sync p).
+Proof.
+  intros p gs g w d o HQS HJI Hbnd.
+  destruct (rollback_confirm_gen false p gs w d o HQS Hbnd) as (cf & p1 & o1 & p2 & o2 & s3 & gs3 & A1 & A2 & A3 & A4 & A5 & A6 & A7 & A8 & A9 & A10 & A11 & A12 & A13 & A14 & _).
+  - intros cf _ HLcf _. exact (dense_rollback p gs g w d o cf HQS HJI HLcf).
+  - exists cf, p1, o1, p2, o2, s3, gs3. repeat (split; [assumption|]). assumption.
+Qed.
+
 (* all local players are registered for the current frame *)
 Definition locals_done (d : Z) (p : p2p) (gs : list ghost) : Prop :=
   forall h, In h (local_handles p) -> Done (s_current (ps_sync p)) d (s_queues (ps_sync p)) gs h.
 
-Lemma advance_rollback_progress : forall p gs g w d o,
-  QS w d p gs -> JI w p g -> Forall (fun c => cs_last c < I32MAX) (ps_status p) ->
-  (forall h, In h (local_handles p) -> exists pi, assoc_get (ps_pending p) h = Some pi) ->
-  exists p' o' gs', advance_rollback_frame predict p o = Ok (p', o') /\ QS w d p' gs'.
+Definition hlens_grow (gs gs' : list ghost) : Prop :=
+  forall h g', nth_error gs' h = Some g' -> exists g, nth_error gs h = Some g /\ hlen (fst g) <= hlen (fst g').
+
+Lemma hist_step_hlens : forall d pend t gs gs', hist_step d pend t gs gs' -> hlens_grow gs gs'.
 Proof.
-  intros p gs g w d o HQS HJI Hbnd Hpend.
-  destruct (rollback_confirm_progress p gs g w d o HQS HJI Hbnd)
-    as (cf & p1 & o1 & p2 & o2 & s3 & gs3 & Ecf & Er & Hshape & Es & Hp2 & _ & _ & E3 & HQS3 & Hcl3 & Hmap3 & Hc3 & _ & _).
+  intros d pend t gs gs' H h g' A. destruct (H h g' A) as (g & B & C). exists g. split; [exact B|].
+  destruct C as [->|(_ & pi & k & _ & -> & _)]; [lia|]. rewrite hlen_fill. lia.
+Qed.
+
+Lemma advance_rollback_gen : forall sp p gs w d o,
+  QSg sp w d p gs -> Forall (fun c => cs_last c < I32MAX) (ps_status p) ->
+  (forall h, In h (local_handles p) -> exists pi, assoc_get (ps_pending p) h = Some pi) ->
+  (forall cf, confirmed_frame p = Ok cf -> s_last_confirmed (ps_sync p) <= cf ->
+     Forall (fun g : ghost => cf <= hlen (fst g) - 1) gs -> exists p1 o1, HRpost p gs cf o p1 o1) ->
+  exists cf p1 o1 p' o' gs',
+    confirmed_frame p = Ok cf /\ handle_rollback_and_save predict p cf o = Ok (p1, o1) /\
+    s_last_confirmed (ps_sync p) <= cf /\ Forall (fun g : ghost => cf <= hlen (fst g) - 1) gs /\
+    advance_rollback_frame predict p o = Ok (p', o') /\ QSg sp w d p' gs' /\
+    all_clean (s_queues (ps_sync p')) /\ s_last_saved (ps_sync p') = s_last_saved (ps_sync p1) /\
+    hlens_grow gs gs' /\
+    s_last_confirmed (ps_sync p') = Z.min (if sp then Z.min cf (s_last_saved (ps_sync p1)) else cf) (s_current (ps_sync p)) /\
+    (s_current (ps_sync p') = s_current (ps_sync p) \/ s_current (ps_sync p') = s_current (ps_sync p) + 1).
+Proof.
+  intros sp p gs w d o HQS Hbnd Hpend Hroll.
+  destruct (rollback_confirm_gen sp p gs w d o HQS Hbnd Hroll)
+    as (cf & p1 & o1 & p2 & o2 & s3 & gs3 & Ecf & Er & Hshape & Es & Hp2 & _ & _ & E3 & HQS3 & Hcl3 & Hmap3 & Hc3 & _ & _ & Hsv3 & HL3 & HLcf & Hcfg).
   unfold advance_rollback_frame. rewrite Ecf. cbn [res_bind]. rewrite Er. cbn [res_bind]. rewrite Es. cbn [res_bind].
-  assert (Hf2 : ps_sparse p2 = false /\ ps_sync p2 = ps_sync p1 /\ local_handles (with_sync p2 s3) = local_handles p /\
+  assert (Hf2 : ps_sparse p2 = sp /\ ps_sync p2 = ps_sync p1 /\ local_handles (with_sync p2 s3) = local_handles p /\
                 ps_pending (with_sync p2 s3) = ps_pending p).
   { rewrite Hp2, Hshape. destruct (qs_mode _ _ _ _ HQS) as (_ & X & _). repeat split. exact X. }
   destruct Hf2 as (Hsp2 & Hsy2 & Hlh3 & Hpe3).
@@ -980,8 +1055,15 @@ Proof.
                                    exists pi, assoc_get (ps_pending p3) h = Some pi) (local_handles p3)).
   { apply Forall_forall. intros h Hin. pose proof Hin as Hin2. apply (local_handles_spec p3 h Hnp3) in Hin2.
     destruct Hin2 as (Hr & Hk). split; [lia|]. split; [exact Hk|]. apply Hpend3. exact Hin. }
-  destruct (register_go_progress false (local_handles p3) w d p3 gs3 HQS3 Hcl3 (local_handles_nodup p3) Hall)
-    as (p4 & gs4 & E4 & HQS4 & Hcl4 & Hrest4 & Hc4 & HL4 & Hdone4 & _).
+  destruct (register_go_progress sp (local_handles p3) w d p3 gs3 HQS3 Hcl3 (local_handles_nodup p3) Hall)
+    as (p4 & gs4 & E4 & HQS4 & Hcl4 & Hrest4 & Hc4 & HL4 & Hdone4 & _ & Hhs4).
+  pose proof (register_go_frame _ _ _ E4) as (_ & _ & ((_ & _ & Hsv4) & _)).
+  assert (Hgrow : hlens_grow gs gs4).
+  { intros h g4 A. destruct (hist_step_hlens _ _ _ _ _ Hhs4 h g4 A) as (g3 & B & C).
+    destruct (map_fst_nth gs gs3 h g3 Hmap3 B) as (g0 & D & Ef). exists g0. split; [exact D|]. rewrite Ef. exact C. }
+  assert (Hc34 : s_current (ps_sync p4) = s_current (ps_sync p)) by (rewrite Hc4; subst p3; cbn [with_sync ps_sync]; exact Hc3).
+  assert (HL34 : s_last_confirmed (ps_sync p4) = Z.min (if sp then Z.min cf (s_last_saved (ps_sync p1)) else cf) (s_current (ps_sync p))) by (rewrite HL4; subst p3; cbn [with_sync ps_sync]; exact HL3).
+  assert (Hsv34 : s_last_saved (ps_sync p4) = s_last_saved (ps_sync p1)) by (rewrite Hsv4; subst p3; cbn [with_sync ps_sync]; exact Hsv3).
   unfold register_local_inputs. rewrite E4. cbn [res_bind].
   destruct (send_ready_outgoing_ok p4 o2) as (p5 & o5 & E5 & O5). rewrite E5. cbn [res_bind].
   pose proof (QS_out_only _ _ _ _ _ _ HQS4 O5) as HQS5.
@@ -994,7 +1076,9 @@ Proof.
   set (s4 := ps_sync p4) in *.
   set (c := s_current s4) in *. set (L4 := s_last_confirmed s4) in *.
   set (fa := if L4 =? NULL then c else c - L4).
-  destruct (fa <? w) eqn:Eg; [|exists p5, o5, gs4; split; [reflexivity|exact HQS5]].
+  destruct (fa <? w) eqn:Eg.
+  2:{ exists cf, p1, o1, p5, o5, gs4. split; [first [exact Ecf|reflexivity]|]. split; [first [exact Er|reflexivity]|]. split; [exact HLcf|]. split; [exact Hcfg|]. split; [reflexivity|]. split; [exact HQS5|].
+      rewrite Hs5. split; [exact Hcl4|]. split; [exact Hsv34|]. split; [exact Hgrow|]. split; [exact HL34|left; exact Hc34]. }
   pose proof HQS5 as [Hw5 Hd5 Hmode5 Hn5 Hconn5 Hgos5 HQ5 Hlast5 Hfr5 Hkinds5 Hpe5].
   rewrite Hs5 in HQ5, Hfr5, Hkinds5. fold s4 c L4 in HQ5, Hfr5, Hkinds5.
   destruct Hn5 as (Hn51 & Hn52 & Hn53 & Hn54). destruct Hfr5 as (HfL & Hfc & Hfw).
@@ -1002,8 +1086,10 @@ Proof.
   destruct (sync_inputs_go_ok predict (ps_status p5) (s_queues s4) gs4 c L4 HQ5 Hcl4 ltac:(lia) Hconn5 Hfc ltac:(lia))
     as (qs' & ins & E & HQ' & Hcl' & Hl' & Hst' & Hsu & Hkn).
   unfold synchronized_inputs. fold c. rewrite E. cbn [res_bind].
-  eexists; eexists; exists gs4. split; [reflexivity|].
+  exists cf, p1, o1. eexists; eexists; exists gs4. split; [first [exact Ecf|reflexivity]|]. split; [first [exact Er|reflexivity]|]. split; [exact HLcf|]. split; [exact Hcfg|]. split; [reflexivity|].
   rewrite with_pending_sync.
+  split; [|cbn [with_sync ps_sync advance_frame with_current with_queues s_queues s_last_saved s_last_confirmed s_current];
+           split; [exact Hcl'|split; [exact Hsv34|split; [exact Hgrow|split; [exact HL34|right; fold c; subst c; rewrite Hc34; reflexivity]]]]].
   apply (QS_resync _ w d (with_pending p5 []) gs4 _ gs4 (QS_no_pending _ _ _ _ _ HQS5)).
   - cbn. rewrite Hs5. reflexivity.
   - cbn [advance_frame with_current with_queues s_current s_last_confirmed s_queues]. fold c L4. exact HQ'.
@@ -1031,6 +1117,17 @@ Proof.
     + exact HK.
   - intros h pi X. discriminate X.
   - eapply spec_ok_grow; [exact (qs_spec _ _ _ _ HQS5)|reflexivity|reflexivity|cbn; rewrite Hs5; reflexivity|apply grow_refl].
+Qed.
+
+Lemma advance_rollback_progress : forall p gs g w d o,
+  QS w d p gs -> JI w p g -> Forall (fun c => cs_last c < I32MAX) (ps_status p) ->
+  (forall h, In h (local_handles p) -> exists pi, assoc_get (ps_pending p) h = Some pi) ->
+  exists p' o' gs', advance_rollback_frame predict p o = Ok (p', o') /\ QS w d p' gs'.
+Proof.
+  intros p gs g w d o HQS HJI Hbnd Hpend.
+  destruct (advance_rollback_gen false p gs w d o HQS Hbnd Hpend) as (cf & p1 & o1 & p' & o' & gs' & _ & _ & _ & _ & A & B & _).
+  - intros cf _ HLcf _. exact (dense_rollback p gs g w d o cf HQS HJI HLcf).
+  - exists p', o', gs'. split; [exact A|exact B].
 Qed.
 End ProgressB.
 
@@ -1108,7 +1205,8 @@ Lemma remote_progress : forall sp w d p gs pl f v e,
       nth_error gs (Z.to_nat pl) = Some (hist, low) /\ gs' = updz gs (Z.to_nat pl) (hist ++ [v], low) /\
       s_queues (ps_sync p') = updz (s_queues (ps_sync p)) (Z.to_nat pl) q' /\
       q_first_incorrect q' = fi_after q v (hlen hist) /\ q_pred q' = pred_after q v (hlen hist) /\
-      s_current (ps_sync p') = s_current (ps_sync p).
+      s_current (ps_sync p') = s_current (ps_sync p) /\
+      s_last_confirmed (ps_sync p') = s_last_confirmed (ps_sync p) /\ s_last_saved (ps_sync p') = s_last_saved (ps_sync p).
 Proof.
   intros sp w d p gs pl f v e HQS Hpl Hk Hf Hcap.
   pose proof HQS as [Hw Hd Hmode Hn Hconn Hgos HQ Hlast Hfr Hkinds Hpe Hsok].
@@ -1142,7 +1240,7 @@ Proof.
   rewrite Ea. cbn [res_bind].
   pose proof (qi_after_add _ _ _ _ _ v q' Hqi I' R' F' P') as Hqi'.
   eexists. exists (updz gs (Z.to_nat pl) (hist ++ [v], low)). split; [reflexivity|].
-  split; [|exists q, hist, low, q'; cbn [with_status with_sync with_queues ps_sync s_queues s_current]; repeat split; assumption].
+  split; [|exists q, hist, low, q'; cbn [with_status with_sync with_queues ps_sync s_queues s_current s_last_confirmed s_last_saved]; repeat split; first [assumption|reflexivity]].
   constructor; cbn [with_status with_sync with_queues ps_maxpred ps_sync ps_running ps_sparse ps_spectators ps_disc_frame
                     ps_nplayers ps_kinds ps_status ps_remotes ps_pending s_maxpred s_current s_last_confirmed s_queues].
   - exact Hw.
@@ -1230,17 +1328,17 @@ Qed.
 Definition players_only (kinds : list pkind) : Prop :=
   Forall (fun k => match k with KSpectator _ => False | _ => True end) kinds.
 
-Lemma QS_start : forall n w d kinds eps nspec,
+Lemma QS_start_gen : forall sp n w d kinds eps nspec,
   1 <= w -> 0 <= d -> w + d + 3 <= QLEN -> 0 < n -> Z.of_nat (length kinds) = n -> players_only kinds ->
-  QS w d (session_start n w false d kinds eps nspec) (repeat ([], 0) (Z.to_nat n)).
+  QSg sp w d (session_start n w sp d kinds eps nspec) (repeat ([], 0) (Z.to_nat n)).
 Proof.
-  intros n w d kinds eps nspec Hw Hd Hcap Hn Hlen Hpl.
+  intros sp n w d kinds eps nspec Hw Hd Hcap Hn Hlen Hpl.
   unfold session_start, p2p_new, sync_new.
   constructor; cbn [with_running with_queues ps_maxpred ps_sync ps_running ps_sparse ps_spectators ps_disc_frame ps_nplayers
                     ps_kinds ps_status ps_remotes ps_pending s_maxpred s_current s_last_confirmed s_queues].
   - split; [exact Hw|split; reflexivity].
   - split; assumption.
-  - assert (((w =? 0) && false) = false) as -> by apply andb_false_r. repeat split.
+  - assert (((w =? 0) && sp) = false) as -> by (assert ((w =? 0) = false) as -> by lia; reflexivity). repeat split.
   - rewrite !repeat_length. repeat split; lia.
   - apply Forall_forall. intros s Hs. apply repeat_spec in Hs. subst s. reflexivity.
   - apply Forall_forall. intros e He. apply in_map_iff in He. destruct He as (hs & <- & _). cbn [ev_status].
@@ -1261,6 +1359,10 @@ Proof.
   - intros _. cbn [with_running ps_next_spec ps_sync with_queues s_last_confirmed]. split; [lia|]. split; [unfold NULL; lia|].
     apply Forall_forall. intros g Hg. pose proof (hlen_nonneg (fst g)). lia.
 Qed.
+Lemma QS_start : forall n w d kinds eps nspec,
+  1 <= w -> 0 <= d -> w + d + 3 <= QLEN -> 0 < n -> Z.of_nat (length kinds) = n -> players_only kinds ->
+  QS w d (session_start n w false d kinds eps nspec) (repeat ([], 0) (Z.to_nat n)).
+Proof. exact (QS_start_gen false). Qed.
 
 (* ================= runs inside C01's space ================= *)
 (* which operations the theorem covers, decided on the current state:
